@@ -229,7 +229,7 @@ class Model():
             )
 
         # First remove all of the associations
-        for association in asset.associations:
+        for association in list(asset.associations):
             self.remove_asset_from_association(asset, association)
 
         # Also remove all of the entry points
@@ -239,6 +239,10 @@ class Model():
                 attacker.entry_points.remove(entry_point_tuple)
 
         self.assets.remove(asset)
+
+        # The id and the name of the asset are free to be used again
+        self.asset_ids.discard(asset.id)
+        self.asset_names.discard(asset.name)
 
     def remove_asset_from_association(
             self,
